@@ -2,6 +2,7 @@
 
 from __future__ import annotations
 
+import heapq
 import json
 from collections.abc import Iterable, Iterator, Mapping
 from dataclasses import dataclass, field, replace
@@ -711,25 +712,33 @@ class Hugr(Mapping[Node, NodeData], Generic[OpVarCov]):
     def _to_serial(self) -> SerialHugr:
         """Serialize the HUGR."""
         # non contiguous indices will be erased: nodes are renumbered in index
-        # order, except that a node is never listed before its parent (indices
-        # reused after a deletion can be smaller than the parent's)
+        # order, except that a node is never listed before its parent or before
+        # an earlier sibling (readers rebuild the hierarchy, including the order
+        # of children, from the order of the list; indices reused after a
+        # deletion need not follow it)
+        next_sibling: dict[int, int] = {}
+        for data in self._nodes:
+            if data is not None:
+                for child, following in zip(data.children, data.children[1:]):
+                    next_sibling[child.idx] = following.idx
         order: list[int] = []
-        listed: set[int] = set()
-        pending = [idx for idx, data in enumerate(self._nodes) if data is not None]
-        while pending:
-            waiting = []
-            for idx in pending:
-                parent = cast(NodeData, self._nodes[idx]).parent
-                if parent is None or parent.idx in listed:
-                    order.append(idx)
-                    listed.add(idx)
-                else:
-                    waiting.append(idx)
-            if len(waiting) == len(pending):
-                # unreachable for a well formed hierarchy
-                order.extend(waiting)
-                break
-            pending = waiting
+        ready = [self.root.idx]
+        while ready:
+            idx = heapq.heappop(ready)
+            order.append(idx)
+            children = cast(NodeData, self._nodes[idx]).children
+            if children:
+                heapq.heappush(ready, children[0].idx)
+            if idx in next_sibling:
+                heapq.heappush(ready, next_sibling[idx])
+        if len(order) < self.num_nodes():
+            # unreachable for a well formed hierarchy
+            listed = set(order)
+            order.extend(
+                idx
+                for idx, data in enumerate(self._nodes)
+                if data is not None and idx not in listed
+            )
         new_idx = {old: new for new, old in enumerate(order)}
         node_datas = [cast(NodeData, self._nodes[idx]) for idx in order]
 
